@@ -118,9 +118,16 @@ pub fn salts(seed: u64, full: bool) -> Vec<[u8; 32]> {
     one[0] = 1;
     let mut top = [0u8; 32];
     top[31] = 0x80;
-    let mut v = vec![[0u8; 32], ctr_array::<32>(seed, "salt0"), [0xFF; 32]];
+    let mut v = vec![[0u8; 32], ctr_array::<32>(seed, "salt0"), [0xFF; 32], one, top];
     if full {
-        v.extend_from_slice(&[one, top, ctr_array::<32>(seed, "salt1")]);
+        // zero bytes at either end of an otherwise random salt, and a second random one
+        let mut lo = ctr_array::<32>(seed, "salt-lo");
+        lo[0] = 0;
+        lo[1] = 0;
+        let mut hi = ctr_array::<32>(seed, "salt-hi");
+        hi[31] = 0;
+        hi[30] = 0;
+        v.extend_from_slice(&[lo, hi, ctr_array::<32>(seed, "salt1")]);
     }
     v
 }
@@ -187,7 +194,15 @@ pub fn key40s(seed: u64, n_ctr: usize) -> Vec<[u8; 40]> {
     for (i, b) in ramp.iter_mut().enumerate() {
         *b = i as u8;
     }
+    let mut halves = [0u8; 40];
+    for (i, b) in halves.iter_mut().enumerate() {
+        *b = 0xA0 ^ ((i % 20) as u8).wrapping_mul(13);
+    }
+    let mut lastzero = ramp;
+    lastzero[39] = 0;
+    lastzero[0] = 0x80;
     let mut v = vec![[0u8; 40], [0xFF; 40], ramp];
+    v.extend_from_slice(&[[0x36; 40], [0x5c; 40], halves, lastzero]);
     for i in 0..n_ctr {
         v.push(ctr_array::<40>(seed, &format!("key40-{i}")));
     }
